@@ -133,7 +133,20 @@ fn check_bounded(c: &BoundedCase, obs: &mut Obs) {
     match c {
         BoundedCase::Img { img, tb } => with_image!(img, IC, |i| img_bounded(i, img, tb, obs), panic!("bad image")),
         BoundedCase::Text { text, tb } => bounded(&text.build::<Rgb565>(), tb, obs),
-        BoundedCase::Prim { prim, tb } => with_styled!(&prim.shape, prim.sty.build::<Rgb565>(), Rgb565, |s| bounded(&s, tb, obs)),
+        BoundedCase::Prim { prim, tb } => with_styled!(&prim.shape, prim.sty.build::<Rgb565>(), Rgb565, |s| {
+            bounded(&s, tb, obs);
+            // pixels() fed to draw_iter must leave the same pixels inside the target's box as draw()
+            let bb = rect(tb.0, tb.1, tb.2, tb.3);
+            let mut a = RecD::<Rgb565>::with_box(bb);
+            let _ = s.draw(&mut a);
+            let mut c = RecD::<Rgb565>::with_box(bb);
+            let _ = c.draw_iter(s.pixels());
+            let inside = |m: &Map<Rgb565>| -> Map<Rgb565> { m.iter().filter(|(k, _)| bb.contains(Point::new(k.0, k.1))).map(|(k, v)| (*k, *v)).collect() };
+            let (ia, ic) = (inside(&a.map), inside(&c.map));
+            if ia != ic {
+                obs.fail("draw==pixels-inside-the-target", format!("target box {:?}: a=draw(), b=pixels(): {}", tb, map_diff(&ia, &ic)));
+            }
+        }),
     }
 }
 
